@@ -391,7 +391,7 @@ longer of the two sections -/
 theorem C10_slab_hit_envelope (pd : PlaneDist F) (secCur secNext : List (Segment F)) (cur next : Segment F) (hit : LineHit F)
     (h0 : 0 ≤ pd.fractionOfSection) (h1 : pd.fractionOfSection ≤ 1) (g0 : 0 ≤ pd.fractionOfSegment) (g1 : pd.fractionOfSegment ≤ 1)
     (hhit : @coversDecide F (fieldScalar T) false pd secCur secNext cur next = some hit) :
-    hit = ⟨pd, cur, next⟩ ∧
+    hit = @hitOf F (fieldScalar T) pd secCur secNext cur next ∧
     min (min cur.topTruncation.x next.topTruncation.x) (min cur.topTruncation.y next.topTruncation.y) ≤ pd.distanceFromPlane ∧
     pd.distanceFromPlane ≤ max (max cur.thickness.x next.thickness.x) (max cur.thickness.y next.thickness.y) ∧
     0 ≤ pd.distanceAlongPlane ∧
@@ -414,20 +414,36 @@ theorem C10_slab_hit_envelope (pd : PlaneDist F) (secCur secNext : List (Segment
       · exact absurd hhit (by simp)
 
 /-- **C10** temperature (`linePaintAt`, code 1): the value written is the `lerp` of what the temperature models of the two adjacent
-sections' segments give; it lies between them for `0 ≤ sf ≤ 1` and is a section's own value at its coordinate -/
+sections' segments give (`tc`, `tn`; the slab-only models `plate model` / `mass conserving` may throw, so the two section values are
+named by hypotheses as for the composition); it lies between them for `0 ≤ sf ≤ 1` and is a section's own value at its coordinate -/
 theorem C10_temperature_convex (f : LineFeature F) (ctx : Ctx F) (q : Query F) (h : LineHit F) (p : Req) (e : Nat) (out : List F)
-    (old : F) (hcode : p.code = 1) (hold : idx out e = .ok old) :
+    (old tc tn : F) (hcode : p.code = 1) (hold : idx out e = .ok old)
+    (hc : @sectionTemp F (fieldScalar T) f.isFault ctx q h.pd h.ap h.cur old = .ok tc)
+    (hn : @sectionTemp F (fieldScalar T) f.isFault ctx q h.pd h.ap h.next old = .ok tn) :
     ∃ v : F, @linePaintAt F (fieldScalar T) f ctx q h p e out = .ok (writeBlock e [v] out) ∧
-      v = @lerp F (fieldScalar T) (@sectionTemp F (fieldScalar T) f.isFault ctx q h.pd h.cur old)
-            (@sectionTemp F (fieldScalar T) f.isFault ctx q h.pd h.next old) h.pd.fractionOfSection ∧
-      (0 ≤ h.pd.fractionOfSection → h.pd.fractionOfSection ≤ 1 →
-        min (@sectionTemp F (fieldScalar T) f.isFault ctx q h.pd h.cur old) (@sectionTemp F (fieldScalar T) f.isFault ctx q h.pd h.next old) ≤ v ∧
-        v ≤ max (@sectionTemp F (fieldScalar T) f.isFault ctx q h.pd h.cur old) (@sectionTemp F (fieldScalar T) f.isFault ctx q h.pd h.next old)) ∧
-      (h.pd.fractionOfSection = 0 → v = @sectionTemp F (fieldScalar T) f.isFault ctx q h.pd h.cur old) ∧
-      (h.pd.fractionOfSection = 1 → v = @sectionTemp F (fieldScalar T) f.isFault ctx q h.pd h.next old) := by
-  refine ⟨_, @linePaintAt_temperature F (fieldScalar T) f ctx q h p e out old hcode hold, rfl, fun h0 h1 => lerp_within T _ _ _ h0 h1, ?_, ?_⟩
+      v = @lerp F (fieldScalar T) tc tn h.pd.fractionOfSection ∧
+      (0 ≤ h.pd.fractionOfSection → h.pd.fractionOfSection ≤ 1 → min tc tn ≤ v ∧ v ≤ max tc tn) ∧
+      (h.pd.fractionOfSection = 0 → v = tc) ∧ (h.pd.fractionOfSection = 1 → v = tn) := by
+  refine ⟨_, @linePaintAt_temperature F (fieldScalar T) f ctx q h p e out old tc tn hcode hold hc hn, rfl,
+    fun h0 h1 => lerp_within T _ _ _ h0 h1, ?_, ?_⟩
   · intro hz; rw [hz]; exact lerp_at_zero T _ _
   · intro hz; rw [hz]; exact lerp_at_one T _ _
+
+/-- **C10** temperature, segments without slab-only models (every model one of `uniform`, `linear`, `adiabatic`): no hypothesis about the
+section values is needed, they are the plain folds of `LineTemp.get` — the statement as it read before `plate model` and `mass conserving`
+were modelled -/
+theorem C10_temperature_convex_basic (f : LineFeature F) (ctx : Ctx F) (q : Query F) (h : LineHit F) (p : Req) (e : Nat) (out : List F)
+    (old : F) (mc mn : List (LineTemp F)) (hcode : p.code = 1) (hold : idx out e = .ok old)
+    (hmc : h.cur.temps = mc.map SegTemp.basic) (hmn : h.next.temps = mn.map SegTemp.basic) :
+    let tc := mc.foldl (fun t m => @LineTemp.get F (fieldScalar T) m f.isFault ctx q.depth q.gravityNorm h.pd t) old
+    let tn := mn.foldl (fun t m => @LineTemp.get F (fieldScalar T) m f.isFault ctx q.depth q.gravityNorm h.pd t) old
+    ∃ v : F, @linePaintAt F (fieldScalar T) f ctx q h p e out = .ok (writeBlock e [v] out) ∧
+      v = @lerp F (fieldScalar T) tc tn h.pd.fractionOfSection ∧
+      (0 ≤ h.pd.fractionOfSection → h.pd.fractionOfSection ≤ 1 → min tc tn ≤ v ∧ v ≤ max tc tn) ∧
+      (h.pd.fractionOfSection = 0 → v = tc) ∧ (h.pd.fractionOfSection = 1 → v = tn) :=
+  C10_temperature_convex T f ctx q h p e out old _ _ hcode hold
+    (@sectionTemp_basic F (fieldScalar T) f.isFault ctx q h.pd h.ap h.cur mc hmc old)
+    (@sectionTemp_basic F (fieldScalar T) f.isFault ctx q h.pd h.ap h.next mn hmn old)
 
 /-- **C10** composition (`linePaintAt`, code 2): as for temperature, with the two sections' composition values `cc`, `cn` -/
 theorem C10_composition_convex (f : LineFeature F) (ctx : Ctx F) (q : Query F) (h : LineHit F) (p : Req) (e : Nat) (out : List F)
@@ -850,7 +866,7 @@ def exSegment' : Segment ℚ :=
 def exPd : PlaneDist ℚ :=
   { distanceFromPlane := 5, distanceAlongPlane := 50, fractionOfSection := 1 / 2, fractionOfSegment := 1 / 2, sectionIdx := 0, segment := 0,
     averageAngle := 0, depthReferenceSurface := 0, closestTrenchPoint := ⟨0, 0, 0⟩ }
-def exHit : LineHit ℚ := ⟨exPd, exSegment, exSegment'⟩
+noncomputable def exHit : LineHit ℚ := @hitOf ℚ (fieldScalar toyTransc) exPd [exSegment] [exSegment'] exSegment exSegment'
 
 /-- hypotheses of `C10_lerp`, `C10_geometry_convex`, `C10_local_thickness_convex`: fractions in `[0, 1]`; and of `C10_lerp_extrapolates` -/
 example : (0 : ℚ) ≤ exPd.fractionOfSection ∧ exPd.fractionOfSection ≤ 1 ∧ (0 : ℚ) ≤ exPd.fractionOfSegment ∧ exPd.fractionOfSegment ≤ 1 ∧
@@ -869,11 +885,13 @@ theorem ex_slab_hit :
     sectionLength lerp Scalar.fabs
   simp only [s_add, s_sub, s_mul, s_lt, s_le, s_eps, s_neg, lit_0, exPd, exSegment, exSegment', toyTransc, List.foldl]
   norm_num
-  rfl
+  unfold exHit hitOf Segment.secThLocal Segment.secThUp Segment.secThDown sectionsMaxLen sectionLength lerp
+  simp only [s_add, s_sub, s_mul, lit_0, exPd, exSegment, exSegment', List.foldl]
+  norm_num
 
 /-- … and the conclusion of `C10_slab_hit_envelope` for it: `0 ≤ 5 ≤ 30`, `0 ≤ 50 ≤ 200` -/
 example :
-    exHit = ⟨exPd, exSegment, exSegment'⟩ ∧
+    exHit = @hitOf ℚ (fieldScalar toyTransc) exPd [exSegment] [exSegment'] exSegment exSegment' ∧
     min (min exSegment.topTruncation.x exSegment'.topTruncation.x) (min exSegment.topTruncation.y exSegment'.topTruncation.y)
       ≤ exPd.distanceFromPlane ∧
     exPd.distanceFromPlane ≤ max (max exSegment.thickness.x exSegment'.thickness.x) (max exSegment.thickness.y exSegment'.thickness.y) ∧
@@ -896,7 +914,9 @@ def exQuery : Query ℚ := { pt := ⟨1 / 2, 0, 0⟩, nat := ⟨1 / 2, 0, 0⟩, 
 /-- hypotheses of `C10_temperature_convex`, `C10_composition_convex`, `C10_velocity_convex`, `C10_grain_sizes_convex`:
 request codes, readable output entries, and section values that evaluate -/
 example :
-    (Req.temperature.code = 1 ∧ idx [(300 : ℚ)] 0 = .ok 300) ∧
+    (Req.temperature.code = 1 ∧ idx [(300 : ℚ)] 0 = .ok 300 ∧
+      @sectionTemp ℚ (fieldScalar toyTransc) exFeature.isFault exCtx exQuery exHit.pd exHit.ap exHit.cur 300 = .ok 300 ∧
+      @sectionTemp ℚ (fieldScalar toyTransc) exFeature.isFault exCtx exQuery exHit.pd exHit.ap exHit.next 300 = .ok 300) ∧
     ((Req.composition 0).code = 2 ∧ idx [(0 : ℚ)] 0 = .ok 0 ∧
       @sectionComp ℚ (fieldScalar toyTransc) exFeature.isFault exHit.pd 0 exHit.cur 0 = .ok 0 ∧
       @sectionComp ℚ (fieldScalar toyTransc) exFeature.isFault exHit.pd 0 exHit.next 0 = .ok 0) ∧
@@ -906,7 +926,7 @@ example :
             (@Grains.ofBlock ℚ (fieldScalar toyTransc) 0 (readBlock 0 (0 * 10) ([] : List ℚ))) = .ok g ∧
            @sectionGrains ℚ (fieldScalar toyTransc) exFeature.isFault exHit.pd 0 exHit.next
             (@Grains.ofBlock ℚ (fieldScalar toyTransc) 0 (readBlock 0 (0 * 10) ([] : List ℚ))) = .ok g) :=
-  ⟨⟨rfl, rfl⟩, ⟨rfl, rfl, rfl, rfl⟩, ⟨rfl, rfl, rfl⟩, ⟨rfl, _, rfl, rfl⟩⟩
+  ⟨⟨rfl, rfl, rfl, rfl⟩, ⟨rfl, rfl, rfl, rfl⟩, ⟨rfl, rfl, rfl⟩, ⟨rfl, _, rfl, rfl⟩⟩
 
 /-! ### locality: a concrete closest point -/
 
